@@ -34,6 +34,7 @@ RULES = {
     "R-RECOVER": iterator.r_recover,
     "R-TOL": iterator.r_tol,
     "R-TOL-DEFAULT": iterator.r_tol_default,
+    "R-TOL-STRICT": iterator.r_tol_strict,
     "R-OFFSET": flow.r_offset,
     "R-OFFSET-BOOK": flow.r_offset_book,
     "R-TILE": flow.r_tile,
@@ -66,13 +67,13 @@ PROPERTIES = {
                        "and the payload decoders' length classes.  Not decided: that the decoded number/string equals the bytes' value.",
     },
     "C06": {
-        "rules": ["R-STACK-END", "R-CLOSE", "R-OVERRUN-ALL", "R-SHARED-MATCHER", "R-TOL"],
+        "rules": ["R-STACK-END", "R-CLOSE", "R-OVERRUN-ALL", "R-SHARED-MATCHER", "R-TOL-STRICT"],
         "level": "other",
         "explanation": "Typestate/value-flow rules over read_next and header validation: only End-form tags are stored on the open-master stack; the "
                        "stack shrinks only at the three closing sites (exhausted known-size masters drained innermost-first before the next header, "
                        "unknown-size masters popped in a loop decided by is_ended_by, everything closed innermost-first at end of input under the "
                        "EOF switch); the overrun test scans every ancestor; the hierarchy matcher is the single shared one; in strict mode no "
-                       "corruption kind is tolerated (R-TOL, mask 0).  Not decided: that the matcher implements the declared-path semantics, nor "
+                       "corruption kind is tolerated (R-TOL-STRICT: row mask 0 of the tolerance table).  Not decided: that the matcher implements the declared-path semantics, nor "
                        "well-nestedness of the emitted sequence as such.",
     },
     "C01": {
@@ -105,11 +106,12 @@ PROPERTIES = {
                        "negative answer yields UnexpectedTag with no mutation.  That the matcher implements the declared-path semantics is not decided.",
     },
     "C09": {
-        "rules": ["R-FULL-EQ", "R-DEPRECATED-EQ", "R-WIDTH-TABLE", "R-DEST-OWNER"],
+        "rules": ["R-FULL-EQ", "R-DEPRECATED-EQ", "R-WIDTH-TABLE", "R-DEST-OWNER", "R-FLUSH-GUARD"],
         "level": "other",
         "explanation": "Sibling-region comparison (Full arm vs Start/End arms), equal action traces of the deprecated and option-based unknown-size "
                        "entries, the width dispatch tables read off resolved const-generic instantiations per width class, and write_all-only "
-                       "delivery.  Byte equality of two presentations as such is not decided.",
+                       "delivery, and the flush guard (nothing is delivered while a known-size master still waits for its size, so bytes reach the destination "
+                       "in presentation-independent order).  Byte equality of two presentations as such is not decided.",
     },
     "C19": {
         "rules": ["R-ATOMIC"],
@@ -123,20 +125,23 @@ PROPERTIES = {
         "level": "proof",
         "explanation": "Abstract interpretation of next()/try_recover() from any invariant-satisfying state, for any Read implementation: every "
                        "byte the parser looks at lies below buffered_byte_length (no stale data), read() is never handed an empty slice (so Ok(0) "
-                       "means end of stream), and UnexpectedEOF is only constructed after the source has returned Ok(0).  These are the mechanisms "
-                       "that make the result independent of chunking and capacity; equality of two runs as such is not decided.",
+                       "means end of stream), UnexpectedEOF is only returned after the source has returned Ok(0), normal termination only when additionally no "
+                       "buffered byte is unparsed, and (ghost-variable analysis of ensure_data_read) buffer[i] always holds stream byte buffer_offset+i "
+                       "across compaction, growth and refills.  These are the mechanisms that make the result independent of chunking and capacity; "
+                       "equality of two runs as such is not decided.",
     },
     "C12": {
         "rules": ["R-STALE", "R-EOF-GENUINE"],
         "level": "proof",
-        "explanation": "As C04 for the truncation case: nothing beyond the bytes actually delivered is parsed or reported (including partial_data), and "
-                       "an end-of-file error is raised only when the source is exhausted.  'Exactly the complete prefix' per cut point is not decided.",
+        "explanation": "As C04 for the truncation case: nothing beyond the bytes actually delivered is parsed or reported (including partial_data), "
+                       "an end-of-file error is raised only when the source is exhausted, and normal termination (closing Ends) only when no buffered byte is left unparsed.  'Exactly the complete prefix' per cut point is not decided.",
     },
     "C17": {
-        "rules": ["R-LIMIT"],
+        "rules": ["R-LIMIT", "R-PANIC-ITER"],
         "level": "proof",
         "explanation": "Abstract interpretation of next() with a configured limit Some(m): every allocation sized by stream data (buffer growth, to_vec, "
-                       "collect) is proved <= m, or <= the existing capacity, or <= the 16-byte look-ahead; size arithmetic in header validation cannot overflow. "
+                       "collect) is proved <= m, or <= the existing capacity, or <= the 16-byte look-ahead; size arithmetic in header validation cannot overflow "
+                       "and no declared size can reach a panic (R-PANIC-ITER). "
                        "Measured peak heap is not decided.",
     },
     "C14": {
